@@ -394,22 +394,32 @@ pub(crate) fn http_get(base_url: &str, path: &str) -> Result<Vec<u8>> {
     Ok(body)
 }
 
-/// Decode HTTP/1.1 chunked transfer encoding.
+/// Decode HTTP/1.1 chunked transfer encoding (RFC 7230 §4.1).
+///
+/// `None` means malformed framing: a size line that is not terminated by
+/// CRLF or does not start with a hex size, a chunk shorter than declared, or
+/// chunk data that is not followed by CRLF. Never panics, whatever the peer
+/// sent.
 fn dechunk(mut b: &[u8]) -> Option<Vec<u8>> {
     let mut out = Vec::new();
     loop {
         let line_end = b.windows(2).position(|w| w == b"\r\n")?;
-        let size =
-            usize::from_str_radix(std::str::from_utf8(&b[..line_end]).ok()?.trim(), 16).ok()?;
+        // `chunk-size [ ";" chunk-ext ]`: only the part before the first `;`
+        // is the size. Extensions are legal and carry nothing we need.
+        let size_field = b[..line_end].split(|c| *c == b';').next().unwrap_or(&[]);
+        let size = usize::from_str_radix(std::str::from_utf8(size_field).ok()?.trim(), 16).ok()?;
         b = &b[line_end + 2..];
         if size == 0 {
             return Some(out);
         }
-        if b.len() < size + 2 {
+        // A corrupt or hostile size such as `ffffffffffffffff` must be a
+        // rejection, not an overflow.
+        let end = size.checked_add(2)?;
+        if b.len() < end || &b[size..end] != b"\r\n" {
             return None;
         }
         out.extend_from_slice(&b[..size]);
-        b = &b[size + 2..];
+        b = &b[end..];
     }
 }
 
